@@ -135,7 +135,10 @@ fn history(s: &Session, seed: u64, len: usize, ch: &mut Chooser) -> Result<Strin
         };
         let reference = reconnect_proof(&s.user_norm, &cd, &current, &s.k);
         let want = proof == reference;
-        let (got, used, log) = with_script(&refresh, || server.verify_reconnection_attempt(cd, proof));
+        // the script continues with fresh bytes: a site that refuses a degenerate draw and draws again then gets a new value
+        let mut refresh_script = refresh.to_vec();
+        refresh_script.extend_from_slice(&fresh16(seed, &s.name, attempt, "server-again"));
+        let (got, used, log) = with_script(&refresh_script, || server.verify_reconnection_attempt(cd, proof));
         let got = got.map_err(|m| format!("attempt {attempt} ({what}): verify_reconnection_attempt panicked: {m}"))?;
         if got != want {
             return Err(format!(
@@ -144,7 +147,7 @@ fn history(s: &Session, seed: u64, len: usize, ch: &mut Chooser) -> Result<Strin
             ));
         }
         let after = *server.reconnect_challenge_data();
-        let drew_expected = used == 16 && log.len() == 1;
+        let drew_expected = used >= 16 && !log.is_empty();
         let supplied_new = r == 0 || (r > challenges.len() && !challenges.contains(&refresh));
         if supplied_new {
             // bytes never seen before were supplied: the challenge must be new
